@@ -12,8 +12,9 @@
    C18_rename_fresh and C18_save_atomic were refuted of the pinned tree (F18a: DAGStore.Rename was a bare os.Rename;
    F18b: os.WriteFile truncates before it writes); since the repairs 87dde6e / e29932b the model describes the
    repaired code and the FULL statements are proved; the former witnesses are positive Examples.
-   The rename-carries / delete-other-DAG theorems carry the per-name premise name_okb (the three name -> path
-   rules of the code agree on the name: no foreign extension) and are refuted without it (F18c, not repaired). *)
+   The rename-carries / delete-other-DAG theorems needed a per-name premise (no foreign extension) and were refuted
+   without it (F18c); since the repair fe0ec16 the name -> path rules agree on every id (proved on strings:
+   loc_facts) and the statements hold for every id that is a single path element, with an absolute DAGs directory. *)
 From Coq Require Import List String ZArith.
 Import ListNotations.
 From BD.DagStore Require Import Model Proofs.
@@ -126,10 +127,10 @@ Proof. exact crash_complete. Qed.
 Print Assumptions C18_save_crash_complete.
 
 (* After an accepted rename the new name holds the old bytes, the old name is gone, the history recorded for the
-   old name answers under the new one (in front of whatever the new name had - nothing if it was fresh), and
-   nothing else changes.  Premise: name_okb for both names. *)
-Theorem C18_rename_carries : forall valid meta_ok dir (w : world) old new,
-  name_okb dir old = true -> name_okb dir new = true ->
+   old name answers under the new one (the target was free), and nothing else changes.  Full statement: every pair
+   of ids that are single path elements (no name_okb premise any more). *)
+Theorem C18_rename_carries : forall valid meta_ok dir, is_abs dir = true -> forall (w : world) old new,
+  has_slash old = false -> has_slash new = false ->
   step_res valid meta_ok dir w (ORename old new) = ROk ->
   let w' := step_w valid meta_ok dir w (ORename old new) in
   fs_get (file_loc dir new) (w_defs w') = fs_get (file_loc dir old) (w_defs w) /\
@@ -146,15 +147,20 @@ Theorem C18_rename_carries : forall valid meta_ok dir (w : world) old new,
 Proof. exact rename_carries. Qed.
 Print Assumptions C18_rename_carries.
 
-(* without the premise (F18c): the call fails AND the definition is gone from both names *)
-Theorem C18_rename_foreign_extension_refuted :
-  exists valid meta dir w old new,
-    name_okb dir new = false /\
-    step_res valid meta dir w (ORename old new) <> ROk /\
-    fs_get (file_loc dir old) (w_defs (step_w valid meta dir w (ORename old new))) = None /\
-    step valid meta dir (step_w valid meta dir w (ORename old new)) OList = (step_w valid meta dir w (ORename old new), ROk, []).
-Proof. exact rename_foreign_extension_refuted. Qed.
-Print Assumptions C18_rename_foreign_extension_refuted.
+(* a client rename that is refused - for whatever reason - changes nothing *)
+Theorem C18_rename_failed_unchanged : forall valid meta_ok dir, is_abs dir = true -> forall (w : world) old new,
+  has_slash old = false -> has_slash new = false ->
+  step_res valid meta_ok dir w (ORename old new) <> ROk -> step_w valid meta_ok dir w (ORename old new) = w.
+Proof. exact rename_failed_unchanged. Qed.
+Print Assumptions C18_rename_failed_unchanged.
+
+(* the string facts behind it: for every id without a slash the definition file IS the location the loader gives
+   the DAG, AddYamlExtension leaves it alone and it is absolute *)
+Theorem C18_name_rules_agree : forall dir n, has_slash n = false ->
+  craft (file_loc dir n) = file_loc dir n /\ add_yaml_ext (file_loc dir n) = file_loc dir n /\
+  (is_abs dir = true -> is_abs (file_loc dir n) = true).
+Proof. exact loc_facts. Qed.
+Print Assumptions C18_name_rules_agree.
 
 (* Delete removes the definition and the history of the given location and nothing else: every other path, every
    other location, every flag is identical. *)
@@ -169,30 +175,31 @@ Theorem C18_delete_local : forall valid meta_ok dir (w : world) n l,
 Proof. exact delete_local. Qed.
 Print Assumptions C18_delete_local.
 
-(* In terms of DAGs: deleting DAG n the way the API does leaves the definition and the history of every other DAG m
-   as they were.  Premise: name_okb for both names; *)
+(* In terms of DAGs (full statement): deleting DAG n the way the API does leaves the definition and the history of
+   every other DAG m as they were. *)
 Theorem C18_delete_other_dag : forall valid meta_ok dir (w : world) n m,
-  name_okb dir n = true -> name_okb dir m = true -> file_loc dir m <> file_loc dir n ->
+  has_slash n = false -> has_slash m = false -> file_loc dir m <> file_loc dir n ->
   let w' := step_w valid meta_ok dir w (ODelete n (dag_loc dir n)) in
   fs_get (file_loc dir m) (w_defs w') = fs_get (file_loc dir m) (w_defs w) /\
   h_get (dag_loc dir m) (w_hist w') = h_get (dag_loc dir m) (w_hist w).
 Proof. exact delete_other_dag. Qed.
 Print Assumptions C18_delete_other_dag.
 
-(* refuted without it (F18c): deleting a.b erases the history of the DAG stored as a.b.yaml. *)
-Theorem C18_delete_other_dag_refuted :
-  exists valid meta dir w n m,
-    file_loc dir m <> file_loc dir n /\ name_okb dir n = false /\
-    h_get (dag_loc dir m) (w_hist w) <> [] /\
-    h_get (dag_loc dir m) (w_hist (step_w valid meta dir w (ODelete n (dag_loc dir n)))) = [].
-Proof. exact delete_other_dag_refuted. Qed.
-Print Assumptions C18_delete_other_dag_refuted.
+(* the inputs that refuted the two statements for names with a foreign extension (F18c), now positive *)
+Example C18_ex_delete_foreign_extension :
+  file_loc "/d" "a.b" = "/d/a.b.yaml" /\ file_loc "/d" "a.b.yaml" = "/d/a.b.yaml" /\ dag_loc "/d" "a.b" = "/d/a.b.yaml" /\
+  step all_valid all_valid "/d" w_dotted (ODelete "a.b" (dag_loc "/d" "a.b")) =
+    (mkW [("/d/a.yaml", "u")] [("/d/a.b.yaml", []); ("/d/a.yaml", [mkRun 200 [mkStatus "q" 4 []]])] [], ROk, []).
+Proof. exact ex_delete_foreign_extension. Qed.
+
+Example C18_ex_rename_foreign_extension :
+  step all_valid all_valid "/d" (mkW [("/d/a.yaml", "t")] [("/d/a.yaml", [mkRun 100 [mkStatus "r" 4 []]])] []) (ORename "a" "v1.2") =
+    (mkW [("/d/v1.2.yaml", "t")] [("/d/a.yaml", []); ("/d/v1.2.yaml", [mkRun 100 [mkStatus "r" 4 []]])] [], ROk, []) /\
+  snd (step all_valid all_valid "/d" (mkW [("/d/v1.2.yaml", "t")] [] []) OList) = ["v1.2.yaml"] /\
+  file_loc "/d" "a.yml" = "/d/a.yaml" /\ file_loc "/d" "a b" = "/d/a b.yaml".
+Proof. exact ex_rename_foreign_extension. Qed.
 
 (* Non-vacuity: the premises are met by concrete non-trivial states. *)
-Example C18_names_ok : name_okb "/d" "a" = true /\ name_okb "/d" "a b" = true /\ name_okb "/d" "ab" = true /\
-                       name_okb "/d" "a.yaml" = true /\ name_okb "/d" "a.b" = false /\ name_okb "/d" "a.yml" = false.
-Proof. exact ex_names_ok. Qed.
-
 Example C18_ex_create : fs_get (file_loc "/d" "a") (w_defs w_two) <> None /\
   step all_valid all_valid "/d" w_two (OCreate "a" "x") = (w_two, RExists, []).
 Proof. exact ex_create_fresh. Qed.
